@@ -1,6 +1,7 @@
 package worlds
 
 import (
+	"syscall"
 	"errors"
 	"fmt"
 	"net"
@@ -124,6 +125,7 @@ type w1Case struct {
 	monitor  bool // only the byte-level monitor judges the run (configurations outside the reference model)
 	burst    bool // key-only script fed in bursts against a slow consumer; whole-stream comparison at sync points
 	preCC    map[[2]int]int // controller values the receiver holds before the device is connected
+	sigFull  map[int]bool   // script steps at which the signal channel already holds an unread signal
 }
 
 type w1Exec struct {
@@ -190,18 +192,42 @@ func execW1(t *testing.T, seed uint64, c *w1Case, cfg config.Config, script []mo
 			}
 		})
 		sigStop := make(chan struct{})
-		simrt.Go("sigreader", func() {
-			for {
-				simrt.Yield("h.sig")
-				select {
-				case <-sigs:
-					col.sig()
-				case <-sigStop:
-					return
+		var sigMu sync.Mutex
+		sigPaused, sigStopped := false, false
+		if len(c.sigFull) == 0 {
+			simrt.Go("sigreader", func() {
+				for {
+					simrt.Yield("h.sig")
+					select {
+					case <-sigs:
+						col.sig()
+					case <-sigStop:
+						return
+					}
+					simrt.Yield("h.sig+")
 				}
-				simrt.Yield("h.sig+")
-			}
-		})
+			})
+		} else {
+			// a reader that can be told to look away for a moment
+			simrt.Go("sigreader", func() {
+				for {
+					sigMu.Lock()
+					p, st := sigPaused, sigStopped
+					sigMu.Unlock()
+					if st {
+						return
+					}
+					if !p {
+						if _, ok, _ := simrt.TryRecv(sigs); ok {
+							col.sig()
+							continue
+						}
+					}
+					simrt.Sleep(500 * time.Microsecond)
+				}
+			})
+			defer func() { sigMu.Lock(); sigStopped = true; sigMu.Unlock() }()
+		}
 		m := model.NewDev(c.d)
 		for k, v := range c.preCC {
 			m.Recv.CC[k] = v
@@ -266,6 +292,19 @@ func execW1(t *testing.T, seed uint64, c *w1Case, cfg config.Config, script []mo
 			script = nil // fed
 		}
 		for i, ev := range script {
+			foreignSig := 0
+			if c.sigFull[i] {
+				sigMu.Lock()
+				sigPaused = true
+				sigMu.Unlock()
+				simrt.Sleep(time.Millisecond)
+				simrt.WaitIdle()
+				select {
+				case sigs <- syscall.SIGTERM:
+					foreignSig = 1
+				default:
+				}
+			}
 			switch ev.Kind {
 			case "key", "abs":
 				simrt.Send(in, toInputEvent(handlers, ev))
@@ -275,7 +314,19 @@ func execW1(t *testing.T, seed uint64, c *w1Case, cfg config.Config, script []mo
 				simrt.Sleep(time.Duration(ev.Ms) * time.Millisecond)
 			}
 			simrt.WaitIdle()
+			if c.sigFull[i] {
+				// the device may be waiting for room in the channel: let the reader look again
+				sigMu.Lock()
+				sigPaused = false
+				sigMu.Unlock()
+			}
+			if len(c.sigFull) > 0 {
+				// the reader of these runs polls: give it two of its periods
+				simrt.Sleep(3 * time.Millisecond)
+				simrt.WaitIdle()
+			}
 			raw, ns := col.take()
+			ns -= foreignSig
 			ms := decode(raw, i)
 			if ex.vio != nil && (prop == "C05" || c.monitor) {
 				break
